@@ -43,7 +43,13 @@ def gen_cases(tier, seed):
         r = random.Random(env.seed_for(s, "descriptor"))  # independent of the stream run_case derives from the same seed
         d = {"seed": s, "mode": r.choice(["plain", "plain", "registry"]), "n": r.randint(2, 14 if tier == "quick" else 30),
              "W": r.choice([1, 2, 4, 8]), "sched": r.choice(["default", "random", "random"]),
-             "observer": r.choice(["none", "rec", "console", "rec", "html_failing", "swallowing_member"]), "tier": tier}
+             "observer": r.choice(["none", "rec", "console", "rec", "html_failing", "swallowing_member", "rec", "html_slow"]), "tier": tier}
+        if d["observer"] == "html_slow":
+            # (every interrupt of such a case costs more than a second: few calls, plain plans, and only every other case keeps the slow display)
+            if i % 2:
+                d["observer"] = "rec"
+            else:
+                d.update(n=r.randint(2, 4), mode="plain", W=r.choice([1, 2, 4]))
         if d["mode"] == "plain" and r.random() < 0.4:
             # calls that raise, before or after the interrupt: KeyboardInterrupt must still be what run raises, and nothing may hang
             d["faults"] = {"p": r.choice([0.15, 0.3, 0.6]), "kinds": r.choice([["exc"], ["exc", "value"], ["exc", "base"]])}
@@ -330,6 +336,15 @@ def one_interrupt(desc, build, k, position):
 
         # a display whose output fails: its trouble must not replace the KeyboardInterrupt
         progress = up.Progress(make_obs)
+    elif desc["observer"] == "html_slow":
+        import uberjob.progress as up
+
+        def slow_output(b):
+            # a display whose output becomes slow (a page written over a congested link): fast until the interrupt is sent, 1.3 s afterwards
+            if I.sent_seq is not None:
+                time.sleep(1.3)
+
+        progress = up.Progress(lambda: up.HtmlProgressObserver(slow_output, initial_update_delay=0.001, min_update_interval=0.002, max_update_interval=0.01))
     before = rec.thread_census()
     result = exc = None
     returned = False
@@ -421,6 +436,9 @@ def one_interrupt(desc, build, k, position):
     elif never_exit:
         mech = "thread-never-exits"
         bad = f"thread(s) created by run never exit after the interrupt: {never_exit}"
+    elif leaked:
+        mech = "thread-alive-at-raise"
+        bad = f"thread(s) created by run were still alive when it raised KeyboardInterrupt: {[t.name for t in leaked]} (they went on and exited later)"
     elif obs is not None:
         kinds = [t[2] for t in obs.trace]
         if kinds.count("exit") != 1:
